@@ -86,9 +86,12 @@ theorem pairwise_unique {l : List BlockDef} (hp : l.Pairwise (fun a b => ¬ (a.x
 theorem addOffset_ok (off : Nat) (l : List Range) (h : ∀ r ∈ l, r.off + off < U64) :
     addOffset off l = .ok (l.map fun r => ⟨r.off + off, r.len⟩) := by
   unfold addOffset
-  have : l.all (fun r => decide (r.off + off < U64)) = true := by
-    rw [List.all_eq_true]; intro r hr; simp [h r hr]
-  simp [this]
+  congr 1
+  apply List.map_congr_left
+  intro r hr
+  have := h r hr
+  have : min (r.off + off) (U64 - 1) = r.off + off := by omega
+  rw [this]
 
 theorem blockTileIndex_ok (r : Reader) (b : BlockDef) (ranges : List Range)
     (hti : TileIndexOf r.K r.file b ranges) (hlen : ranges.length = b.count)
@@ -96,7 +99,7 @@ theorem blockTileIndex_ok (r : Reader) (b : BlockDef) (ranges : List Range)
     blockTileIndex r b = .ok (ranges.map fun rg => ⟨rg.off + b.tiles.off, rg.len⟩) := by
   obtain ⟨c, raw, h1, h2, h3⟩ := hti
   unfold blockTileIndex
-  simp only [h1, ok_bind, h2, h3, addOffset_ok _ _ hb, List.length_map, hlen, beq_self_eq_true, must_true, pure_eq]
+  simp only [h1, ok_bind, h2, h3, addOffset_ok _ _ hb, List.length_map, hlen, beq_self_eq_true, ensure_true, pure_eq]
 
 /-! ### the position arithmetic: global coordinates vs column / row inside the block -/
 
